@@ -371,6 +371,13 @@ def gen_profiles(rnd, case, args, heat, freq, unit, T):
             args['shutdown_ramp_lower_bounds_heat'], args['shutdown_ramp_upper_bounds_heat'] = hl, hu
     if case['kind'] == 'build' and rnd.random() < 0.04 and 'start_ramp_upper_bounds' in args:
         args['start_ramp_upper_bounds'] = args['start_ramp_upper_bounds'] + [1.]      # lengths differ: assertion
+    if rnd.random() < 0.25:
+        # the same profiles as numpy arrays (interval data, capacities and profiles may all be given as arrays)
+        for k_ in list(args):
+            if k_.endswith('_bounds') or k_.endswith('_bounds_heat'):
+                if isinstance(args[k_], list):
+                    args[k_] = {'$arr': list(args[k_])}
+        case['profile_form'] = 'array'
     case['profiles'] = which
 
 
@@ -384,7 +391,8 @@ def profiles_json(case):
         return None
     from pandas.tseries.frequencies import to_offset
     eff = a.get('ramp_freq') or case['grid']['unit']
-    out = {k: (None if a.get(v) is None else [fs(x) for x in a[v]]) for k, v in keys.items()}
+    vals = lambda v_: v_['$arr'] if isinstance(v_, dict) else v_
+    out = {k: (None if a.get(v) is None else [fs(x) for x in vals(a[v])]) for k, v in keys.items()}
     out['ramp_freq_s'] = int(pd.to_timedelta(to_offset(eff)).total_seconds())
     out['same_freq'] = (eff == case['grid']['freq'])
     return out
